@@ -760,6 +760,8 @@ def gen_reduce(ctx, n):
         if rng.random() < 0.1:
             shape = (rng.randint(6, 14),)
         chunks = U.rand_chunks(rng, shape, zero_p=0.12)
+        if rng.random() < 0.1:
+            shape, chunks = U.big_shape_chunks(rng, zero_p=0.1)
         axis = rng.choice(_axis_choices(len(shape)))
         axes = norm_axes(axis, len(shape))
         r = rng.random()
@@ -771,6 +773,8 @@ def gen_reduce(ctx, n):
             op, kind = "moment", rng.choice(["int", "float"])
         if kind == "inf" and op in ("var", "std", "prod"):
             kind = "nan"
+        if max(shape) > 8 and op in ("prod", "nanprod"):
+            kind = "int"        # long float products overflow to inf, and inf·0 depends on the grouping
         if kind == "bool" and op in ("var", "std", "mean", "prod"):
             kind = "int"
         inp = {"a": enc_arr(_data(rng, shape, kind)), "chunks": [list(c) for c in chunks], "op": op,
@@ -789,6 +793,8 @@ def gen_arg(ctx, n):
     for _ in range(n):
         shape = U.rand_shape(rng, 3, 5)
         chunks = U.rand_chunks(rng, shape, zero_p=0.2)
+        if rng.random() < 0.1:
+            shape, chunks = U.big_shape_chunks(rng, zero_p=0.1)
         axis = rng.choice([None] + list(range(len(shape))))
         op = rng.choice(["argmin", "argmax", "argmin", "argmax", "nanargmin", "nanargmax"])
         kind = rng.choice(["int", "int", "float", "nan", "int32", "uint8", "float32", "bool"]) if op.startswith("arg") else rng.choice(["nan", "float", "float32"])
@@ -804,8 +810,14 @@ def gen_cum(ctx, n):
     for _ in range(n):
         shape = U.rand_shape(rng, 2, 6) if rng.random() < 0.5 else (rng.randint(1, 12),)
         chunks = U.rand_chunks(rng, shape, zero_p=0.25)
+        if rng.random() < 0.1:
+            shape, chunks = U.big_shape_chunks(rng, zero_p=0.1)
         op = rng.choice(["cumsum", "cumprod", "cumsum", "nancumsum", "nancumprod"])
+        if max(shape) > 8 and op == "nancumprod":
+            op = "nancumsum"
         kind = rng.choice(["int", "int", "float", "int32", "uint8", "float32", "bool"]) if not op.startswith("nan") else rng.choice(["nan", "float", "float32"])
+        if max(shape) > 8 and op == "cumprod":
+            kind = "int"
         axis = rng.choice(list(range(len(shape))) + ([None] if not any(0 in c for c in chunks) else []))
         inp = {"a": enc_arr(_data(rng, shape, kind)), "chunks": [list(c) for c in chunks], "op": op,
                "axis": axis, "method": rng.choice(["sequential", "blelloch"])}
@@ -819,6 +831,8 @@ def gen_topk(ctx, n):
     for _ in range(n):
         shape = U.rand_shape(rng, 2, 7)
         chunks = U.rand_chunks(rng, shape)
+        if rng.random() < 0.25:
+            shape, chunks = U.big_shape_chunks(rng)
         axis = rng.randrange(len(shape))
         ln = shape[axis]
         k = rng.choice([1, ln, rng.randint(1, ln), max(chunks[axis]), min(ln, max(chunks[axis]) + 1)])
@@ -837,6 +851,8 @@ def gen_quant(ctx, n):
     for _ in range(n):
         shape = U.rand_shape(rng, 3, 5)
         chunks = U.rand_chunks(rng, shape)
+        if rng.random() < 0.1:
+            shape, chunks = U.big_shape_chunks(rng)
         op = rng.choice(["median", "nanmedian", "quantile", "nanquantile"])
         axis = rng.choice(list(range(len(shape))))
         kind = rng.choice(["nan", "float", "int"]) if op.startswith("nan") else rng.choice(["float", "int"])
